@@ -376,10 +376,9 @@ impl TransactionCoordinator {
         let xmin = active.iter().min().copied().unwrap_or(txid);
 
         // xmax is the last committed transaction from PageZero
-        let xmax = {
-            let last = self.get_last_committed();
-            if last == 0 { None } else { Some(last) }
-        };
+        // (Also when it is still 0: a snapshot without an upper bound sees every transaction
+        // that commits after it was taken.)
+        let xmax = Some(self.get_last_committed());
 
         Ok(Snapshot::new(txid, xmin, xmax, active, aborted))
     }
